@@ -120,11 +120,29 @@ def notify_follows(f, write_pos, cvfield, pred_fields, cls, require_all=True):
                 cond = f.s(blk.term["cond"])
                 names = set()
                 other = False
-                for d in f.descendants(cond):
-                    if d["k"] == "MemberExpr" and d["m"].get("is_field"):
-                        names.add(d["m"]["name"])
-                    if d["k"] == "DeclRefExpr" and d["d"].get("k") in ("local", "param"):
-                        other = True
+                work = [cond]
+                seen_decl = set()
+                while work:
+                    c0 = work.pop()
+                    for d in f.descendants(c0):
+                        if d["k"] == "MemberExpr" and d["m"].get("is_field"):
+                            names.add(d["m"]["name"])
+                        if d["k"] == "DeclRefExpr" and d["d"].get("k") == "param":
+                            other = True
+                        if d["k"] == "DeclRefExpr" and d["d"].get("k") == "local":
+                            # a local computed (once, before the test) from the predicate fields only
+                            nm = d["d"]["name"]
+                            if nm in seen_decl:
+                                continue
+                            seen_decl.add(nm)
+                            inits = [f.s(dd.get("init")) for s_ in f.stmts.values() if s_["k"] == "DeclStmt"
+                                     for dd in s_["decls"] if dd["name"] == nm and dd.get("init")]
+                            reassigned = any(s_["k"] == "BinaryOperator" and s_["op"] == "=" and
+                                             path(f, f.children(s_)[0]) == "l:" + nm for s_ in f.stmts.values())
+                            if len(inits) == 1 and not reassigned and f.dominates(write_pos, f.pos_of(inits[0]) or write_pos):
+                                work.append(inits[0])
+                            else:
+                                other = True
                 if names and names <= set(pred_fields) and not other:
                     return True, "notify guarded by a test of %s only" % sorted(names)
     return False, "a path from the state change to the exit avoids every notify"
